@@ -120,7 +120,7 @@ impl EntityKind {
 @@extract const src/structure/guid.rs EntityKind::PARTICIPANT_BUILT_IN
 }
 impl EntityId {
-@@extract const_exec src/structure/guid.rs EntityId::MIN ensures="EntityId::MIN =~~= eid_min()"
+@@extract const_exec src/structure/guid.rs EntityId::MIN ensures="EntityId::MIN.entity_key =~= eid_min().entity_key, EntityId::MIN.entity_kind == eid_min().entity_kind"
 @@extract const_exec src/structure/guid.rs EntityId::MAX ensures="EntityId::MAX == eid_max()"
 @@extract const src/structure/guid.rs EntityId::PARTICIPANT
 }
